@@ -98,6 +98,8 @@ def case_package(case_seed: int, idx: int, corpus_every: int = 0) -> dict:
         return workload.two_package_container(H(case_seed, "pkg") % (2**40), spread=False)
     if idx % 11 == 9:
         return workload.two_package_container(H(case_seed, "pkg") % (2**40), spread=True)
+    if idx % 22 == 13:
+        return workload.two_package_container(H(case_seed, "pkg") % (2**40), spread="uneven")
     return workload.generate_package(H(case_seed, "pkg"))
 
 
